@@ -245,6 +245,24 @@ type scriptErr struct{ code int }
 
 func (e *scriptErr) Error() string { return fmt.Sprintf("script-error-%d", e.code) }
 
+// Two codes are failures of the source that wrap a context error of the source's own making (a request of
+// its own that timed out or was cancelled): errors.Is(err, context.DeadlineExceeded / context.Canceled)
+// holds although the subscription context is alive. They are ordinary source errors to every operator.
+const (
+	WrapsDeadline = 126
+	WrapsCanceled = 125
+)
+
+func (e *scriptErr) Unwrap() error {
+	switch e.code {
+	case WrapsDeadline:
+		return context.DeadlineExceeded
+	case WrapsCanceled:
+		return context.Canceled
+	}
+	return nil
+}
+
 var errTable = func() []*scriptErr {
 	t := make([]*scriptErr, 128)
 	for i := range t {
@@ -254,7 +272,15 @@ var errTable = func() []*scriptErr {
 }()
 
 // ScriptError returns the (stable) error value for a code.
-func ScriptError(code int) error { return errTable[code&127] }
+// Code 127 (NilError) is the nil error: Error(nil) is a legal terminal notification.
+func ScriptError(code int) error {
+	if code&127 == NilError {
+		return nil
+	}
+	return errTable[code&127]
+}
+
+const NilError = 127
 
 func errCode(err error) string {
 	var se *scriptErr
@@ -418,10 +444,18 @@ func (o rawObserver) IsCompleted() bool { return o.r.Terminal() == 'C' }
 // RawObserver returns a user-implemented observer (no self-protection) feeding this recorder.
 func (r *Rec) RawObserver() ro.Observer[int] { return rawObserver{r} }
 
-// Obs returns the raw observer when the scenario asks for it (Ints["raw"]=1), else the ro.NewObserver one.
+// Obs returns the observer flavour the scenario asks for (Ints["raw"]: 0 ro.NewObserver, 1 user-implemented,
+// 2/3 a Subscriber made by the caller).
 func (r *Rec) Obs() ro.Observer[int] {
-	if r.env.Sc.Int("raw", 0) == 1 {
+	switch r.env.Sc.Int("raw", 0) {
+	case 1:
 		return r.RawObserver()
+	case 2:
+		// the caller hands over a Subscriber of its own: the library uses it as it is (or wraps it when
+		// it needs a stronger concurrency mode)
+		return ro.NewUnsafeSubscriber(r.Observer())
+	case 3:
+		return ro.NewSafeSubscriber(r.Observer())
 	}
 	return r.Observer()
 }
